@@ -28,7 +28,10 @@ Record C18_obs := mkObs {
   ob_watch : list Z;         (* per resource 0..: open WATCH streams after settling *)
   ob_lists : list Z          (* per resource 0..: LIST requests served so far *)
 }.
-Record C18_case := mkC18 { c_nres : Z; c_steps : list C18_obs }.
+(* c_windows: indices of Event steps that the harness emitted WHILE the
+   AddHandler of the preceding step was still inside its replay callbacks
+   (the handler of that step was blocked by the harness, then released) *)
+Record C18_case := mkC18 { c_nres : Z; c_steps : list C18_obs; c_windows : list Z }.
 
 (* ---- multisets of deliveries ---- *)
 Definition note_eqb (a b : note) : bool :=
@@ -88,7 +91,14 @@ Definition starts_step (tr : tracker) (ex : nat -> nat) (o : op) : nat -> nat :=
   | _ => ex
   end.
 
-Definition prop_step (nres : nat) (tr : tracker) (ex : nat -> nat) (ob : C18_obs) : option string :=
+(* the handler added by the previous step saw object x, in its replay or as an event *)
+Definition saw_object (s h x : nat) (l : list delivery) : bool :=
+  existsb (fun d => Nat.eqb (d_sub d) s && Nat.eqb (d_h d) h && Nat.eqb (note_obj (d_note d)) x) l.
+
+(* prev: the previous step (its operation and what was received during it);
+   win: this step is an event emitted inside the replay window of the previous AddHandler *)
+Definition prop_step (nres : nat) (tr : tracker) (ex : nat -> nat) (prev : option C18_obs) (win : bool)
+                     (ob : C18_obs) : option string :=
   let o := ob_op ob in
   let tr' := track_step tr o in
   let obs := ob_dels ob in
@@ -112,6 +122,20 @@ Definition prop_step (nres : nat) (tr : tracker) (ex : nat -> nat) (ob : C18_obs
            | None => true
            end
        | _ => true
+       end);
+    (* add is atomic with respect to events: an object that appears while a handler is
+       being added reaches that handler, in its replay or as an event *)
+    ("event-lost-between-replay-and-registration",
+       match o, prev with
+       | Event r k x, Some p =>
+           match k, ob_op p with
+           | EDel, _ => true
+           | _, AddHandler s h _ =>
+               negb win || negb (reg_has tr s h) ||
+               saw_object s h x (ob_dels p ++ obs)
+           | _, _ => true
+           end
+       | _, _ => true
        end);
     (* an event reaches every handler registered through an open subscription of the resource *)
     ("event-not-delivered",
@@ -143,13 +167,14 @@ Definition prop_step (nres : nat) (tr : tracker) (ex : nat -> nat) (ob : C18_obs
     ("panic", negb (ob_panic ob))
   ].
 
-Fixpoint prop_steps (nres : nat) (k : nat) (tr : tracker) (ex : nat -> nat) (l : list C18_obs) : option string :=
+Fixpoint prop_steps (nres : nat) (wins : list nat) (k : nat) (tr : tracker) (ex : nat -> nat)
+                    (prev : option C18_obs) (l : list C18_obs) : option string :=
   match l with
   | [] => None
   | ob :: l' =>
-      match prop_step nres tr ex ob with
+      match prop_step nres tr ex prev (memn k wins) ob with
       | Some c => Some (at_step c k)
-      | None => prop_steps nres (S k) (track_step tr (ob_op ob)) (starts_step tr ex (ob_op ob)) l'
+      | None => prop_steps nres wins (S k) (track_step tr (ob_op ob)) (starts_step tr ex (ob_op ob)) (Some ob) l'
       end
   end.
 
@@ -194,7 +219,7 @@ Fixpoint model_steps (nres : nat) (k : nat) (st : state) (l : list C18_obs) : op
 
 Definition C18_check (c : C18_case) : verdict :=
   let nres := zn (c_nres c) in
-  match prop_steps nres 0 tr0 (fun _ => 0) (c_steps c) with
+  match prop_steps nres (map zn (c_windows c)) 0 tr0 (fun _ => 0) None (c_steps c) with
   | Some cl => PROPFAIL cl
   | None =>
       match model_steps nres 0 init (c_steps c) with
